@@ -25,6 +25,7 @@ func (d Domain) String() string {
 // (declarations, shared sub-term definitions, asserts).
 type Printer struct {
 	Dom      Domain
+	Light    bool // RUF: emit only per-instance lemmas (used for path-feasibility queries; coarser but sound)
 	tf       *TF
 	out      strings.Builder
 	declared map[string]bool
